@@ -61,7 +61,7 @@ def gen_consts():
     except Exception as e:  # pragma: no cover
         note = "compiled constants unavailable (%r); constants taken from the source text\n" % (e,)
     rc, out = sh([sys.executable, os.path.join(VERIF, "tools", "gen_consts.py"), "--compiled", compiled], timeout=120)
-    # part 2: the complete behaviour of the finite-domain functions (Gen/Tables.v; Proofs/TableProofs.v re-proves model = table)
+    # part 2: the complete behaviour of the finite-domain functions (Gen/Tbl_<NAME>.v; Proofs/Tie*.v re-proves model = table)
     rc2, out2 = 0, ""
     try:
         if okh:
